@@ -6,7 +6,15 @@ import os
 ROOT = os.path.dirname(os.path.dirname(os.path.abspath(__file__)))
 
 # id -> (level, technique, level text, level note, design ref)
-CHECKS = {}
+CHECKS = {
+    'C01': (
+        'exploration',
+        'property-based testing: Hypothesis-generated and exhaustively enumerated (program, schedule) cases on a harness-owned event loop; trace invariant over the lifecycle graph',
+        'Every announced transition and every state sampled after every single event-loop callback is checked against the documented lifecycle graph, for all placements of up to K control requests (exhaustive for K<=2 quick / K<=3 thorough on 9 catalogue programs, Hypothesis-generated programs beyond), each run ending with a post-mortem burst of every control call and all late callbacks. Exploration is the right level: the property is a safety invariant over schedules that the harness can own completely for this single-threaded asyncio library.',
+        'Trusts the StepLoop (FIFO execution of asyncio ready handles, external requests injected between two callbacks) and the public observers (state, has_terminated, ENTERED_STATE callbacks). Raising lifecycle hooks are excluded (C03).',
+        'DESIGN.md section 3 C01',
+    ),
+}
 
 PENDING = {f'C{n:02d}': 'check not built yet in this round (see DESIGN.md section 9 for the build order)' for n in range(1, 21)}
 
